@@ -5148,7 +5148,7 @@ def EBCM_discrete_from_graph(G, p, initial_infecteds=None,
         def psihat(x):
             return sum(Pk[k]*Sk0[k]*x**k/Nk[k] for k in Pk)
         def psihatPrime(x):
-            return sum(k*Pk[k]*Sk0[k]*x**(k-1)/Nk[k] for k in Pk)
+            return sum(k*Pk[k]*Sk0[k]*x**(k-1)/Nk[k] for k in Pk if k>0)
         if SX == 0: #no susceptible node has a neighbor; phiS0, phiR0 play no role
             SX = 1
         phiS0 = SS*1./SX
@@ -5162,7 +5162,7 @@ def EBCM_discrete_from_graph(G, p, initial_infecteds=None,
         def psihat(x):
             return (1-rho)*sum(Pk[k]*x**k for k in Pk)
         def psihatPrime(x):
-            return (1-rho)*sum(k*Pk[k]*x**(k-1) for k in Pk)
+            return (1-rho)*sum(k*Pk[k]*x**(k-1) for k in Pk if k>0)
         phiS0 = 1-rho
         phiR0 = 0
         R0 = 0
